@@ -49,12 +49,17 @@ def declarations():
             kind, a, is_async, fname, args = im.group(1), im.group(2), bool(im.group(3)), im.group(4), im.group(5) or ""
             params = []
             for arg in _split_args(args):
+                rn = re.match(r'\s*#\[argument\(rename\s*=\s*"([^"]*)"\)\]\s*(.*)$', arg, re.S)
+                wire = None
+                if rn:
+                    wire, arg = rn.group(1), rn.group(2)
                 nm, ty = arg.split(":", 1)
                 ty = ty.strip()
-                params.append(dict(name=nm.strip(), ty=ty, optional=ty.startswith("Option<")))
-            name = re.search(r'name\s*=\s*"([^"]*)"', a).group(1)
-            al = re.search(r"aliases\s*=\s*\[([^\]]*)\]", a)
+                params.append(dict(name=nm.strip(), wire=wire or nm.strip(), ty=ty, optional=ty.startswith("Option<")))
+            name = re.search(r'(?<![\w])name\s*=\s*"([^"]*)"', a).group(1)
+            al = re.search(r"(?<![\w])aliases\s*=\s*\[([^\]]*)\]", a)
             aliases = re.findall(r'"([^"]*)"', al.group(1)) if al else []
+            ual = re.search(r"unsubscribe_aliases\s*=\s*\[([^\]]*)\]", a)
             pk = re.search(r"param_kind\s*=\s*(\w+)", a)
             it = dict(kind=kind, fn=fname, rpc=ident(name), aliases=aliases, is_async=is_async, blocking="blocking" in re.sub(r'"[^"]*"', "", a), params=params,
                       param_kind=pk.group(1) if pk else "array")
@@ -62,6 +67,7 @@ def declarations():
                 nt = re.search(r'name\s*=\s*"[^"]*"\s*=>\s*"([^"]*)"', a)
                 it["notif"] = ident(nt.group(1)) if nt else ident(name)
                 it["unsub"] = ident(re.search(r'unsubscribe\s*=\s*"([^"]*)"', a).group(1))
+                it["unsub_aliases"] = re.findall(r'"([^"]*)"', ual.group(1)) if ual else []
             items.append(it)
         apis.append(dict(trait=tname, items=items))
     return apis
@@ -145,7 +151,7 @@ def client_obligation(bods, api, it):
                 if not tm or _norm_ty(tm.group(1)) != _norm_ty(prm["ty"]):
                     ok = False
                     why.append(f"insert {i} type {tm.group(1) if tm else '?'} vs declared {prm['ty']}")
-                if by_name and _str(e.args[1]) != prm["name"]:
+                if by_name and _str(e.args[1]) != prm["wire"]:
                     ok = False
                     why.append(f"insert {i} key {_str(e.args[1])!r} vs {prm['name']!r}")
                 # all inserts go into one builder, which is the one handed to request
@@ -317,8 +323,10 @@ def byname_fields_obligation(bods, api, k, it):
     excl = [z3.Not(z3.And(key[a], key[c])) for i, a in enumerate(lits) for c in lits[i + 1:]]
     want = {}
     for i, prm in enumerate(it["params"]):
-        want[prm["name"]] = i
-        want[camel(prm["name"])] = i
+        # the declared wire name (what the generated client sends) and, as documented, its snake_case and lowerCamelCase forms
+        want[prm["wire"]] = i
+        if re.fullmatch(r"[a-z0-9_]+", prm["wire"]) and not prm["wire"].endswith("_"):
+            want[camel(prm["wire"])] = i
     viol, reach = [], []
     for p in ps:
         if p.kind != "return":
@@ -334,7 +342,12 @@ def byname_fields_obligation(bods, api, k, it):
         sel = int(fm.group(1)) if fm else None
         chosen = [l for l in lits if not ex.feasible(list(p.pc) + excl + [z3.Not(key[l])])]
         if chosen:
-            if want.get(chosen[0]) != sel:
+            norm = lambda x: re.sub(r"[_\-]", "", x).lower()
+            declared = want.get(chosen[0])
+            # the declared wire names (and their documented camelCase form) must select their own slot; any further spelling the macro accepts may only be another
+            # spelling of that same parameter's name (same letters, other case / separators)
+            ok_sel = (declared == sel) if declared is not None else (sel is not None and sel < len(it["params"]) and norm(chosen[0]) == norm(it["params"][sel]["wire"]))
+            if not ok_sel:
                 viol.append(pc)
                 VALIDATION.setdefault("byname:" + api["trait"] + "::" + it["fn"], f"key {chosen[0]!r} selects slot {sel}, declared {want.get(chosen[0])}")
         elif sel is not None:
@@ -366,7 +379,15 @@ def registration_obligation(bods, api):
         if len(regs) != len(api["items"]):
             why.append(f"{len(regs)} registrations for {len(api['items'])} declared items")
         else:
-            for e, it in zip(regs, api["items"]):
+            by_name = {}
+            for e in regs:
+                by_name.setdefault(_str(e.args[1]), []).append(e)
+            for it in api["items"]:
+                es = by_name.get(it["rpc"], [])
+                if len(es) != 1:
+                    why.append(f"{it['fn']}: {len(es)} registrations under {it['rpc']!r}")
+                    continue
+                e = es[0]
                 kind = re.search(r"register_(\w+?)::<", e.callee).group(1)
                 want = "subscription" if it["kind"] == "subscription" else ("blocking_method" if it["blocking"] else ("async_method" if it["is_async"] else "method"))
                 if kind != want:
@@ -376,7 +397,7 @@ def registration_obligation(bods, api):
                 if it["kind"] == "subscription" and (_str(e.args[2]) != it["notif"] or _str(e.args[3]) != it["unsub"]):
                     why.append(f"{it['fn']}: notification/unsubscribe names {_str(e.args[2])!r}/{_str(e.args[3])!r}, declared {it['notif']!r}/{it['unsub']!r}")
         got = sorted((_str(e.args[1]), _str(e.args[2])) for e in als)
-        exp = sorted((a, it["rpc"]) for it in api["items"] for a in it["aliases"])
+        exp = sorted([(a, it["rpc"]) for it in api["items"] for a in it["aliases"]] + [(a, it["unsub"]) for it in api["items"] for a in it.get("unsub_aliases", [])])
         if got != exp:
             why.append(f"aliases {got} vs declared {exp}")
         if why:
@@ -404,7 +425,7 @@ def obligations(tier, seed):
     replay = dict(scenario="c17_roundtrip", vars={}, fixed={}, region=z3.BoolVal(True))
 
     def emit(name, kind, b, viol, reach, bad, desc, bounds, keydetail):
-        reach_l = list(reach.values()) if isinstance(reach, dict) else [reach]
+        reach_l = R.live_reach(viol, reach, bad)
         if bad or not all(reach_l):
             out.append(R.Result(engine="mirsym", name=name, kind=kind, status="unsupported" if bad else "vacuous",
                                 detail=str(bad[:1] or ({k: len(v) for k, v in reach.items()} if isinstance(reach, dict) else "no path"))[:300], bodies=[b.name] if b is not None else []))
@@ -417,7 +438,9 @@ def obligations(tier, seed):
         emit(f"registration:{api['trait']}", "provenance", b, viol, reach, bad,
              "into_rpc registers one callback per declared item under its namespaced name, with the declared kind (sync / async / blocking / subscription with notification and "
              "unsubscribe names), and every alias for exactly its method", "every path of into_rpc", "registration:" + api["trait"])
-        for k, it in enumerate(api["items"]):
+        # the macro registers the methods first, then the subscriptions (each group in declaration order): closure #k follows that order
+        reg_order = [it for it in api["items"] if it["kind"] != "subscription"] + [it for it in api["items"] if it["kind"] == "subscription"]
+        for k, it in enumerate(reg_order):
             label = f"{api['trait']}::{it['fn']}"
             b, viol, reach, bad = client_obligation(bods, api, it)
             emit(f"client:{label}", "provenance", b, viol, reach, bad,
